@@ -153,9 +153,10 @@ def eval_cell(pane, ctxs, di, ti, cpath, res):
     T = build_target(ast)
     ty, data = T, v
     unwraps = []
-    for ci in reversed(cpath):
+    for pos in range(len(cpath) - 1, -1, -1):
+        ci = cpath[pos]
         name, wt, wv, un, cond = ctxs[ci]
-        if cond is not None and not cond(v if ci == cpath[-1] else data):
+        if cond is not None and not cond(data):      # (data is the datum as wrapped so far; innermost: v itself)
             return
         try:
             ty = wt(ty, data if name.startswith('union') else v)
@@ -190,6 +191,10 @@ def eval_cell(pane, ctxs, di, ti, cpath, res):
     cost = len(cpath) * 10 + len(vexpr)
     sig_base = {'vkind': vkind, 'target': grammar.render(ast), 'ctx': names[-1] if len(names) == 1 else '/'.join(names)}
     if vd == 'forbidden':
+        if in_union and not names[-1].startswith('union'):
+            # the union is an OUTER context: its own-kind member is that of the wrapped datum, which says nothing about v itself
+            res['outcomes']['outer_union_not_judged'] += 1
+            return
         if in_union:
             # only the innermost union matters: the datum must come back as itself through its own-kind member
             if got != 'ok':
